@@ -32,8 +32,19 @@ def _filly():
     return bytes(d)
 
 
+def _blanky():
+    """... and with whole payload blocks (and block starts) of ASCII white space: blanks, line ends, tabs, form feeds"""
+    d = bytearray(_DATA[:80 * 1012])
+    for b, pat in ((1, b' '), (2, b'\r\n'), (3, b'\t'), (5, b'\x0b\x0c'), (6, b'\n'), (8, b' \x00')):
+        d[b * 1012:(b + 1) * 1012] = (pat * 1012)[:1012]
+    for b in range(9, 80, 5):
+        d[b * 1012:b * 1012 + 300] = b' ' * 300          # a block that merely starts with blanks
+    return bytes(d)
+
+
 _DATA2 = _filly()
-_CONTENT = {'coded': _DATA, 'filly': _DATA2}
+_DATA3 = _blanky()
+_CONTENT = {'coded': _DATA, 'filly': _DATA2, 'blanky': _DATA3}
 
 
 def files():
@@ -113,8 +124,8 @@ def cases(ctx):
                 yield {'kind': 'readall', 'file': name, 'pre': pre}
             i += 1
     # unblock_1014 fault enumeration
-    for content in ('coded', 'filly'):
-        for k in (1, 2, 3, 4):
+    for content in ('coded', 'filly', 'blanky'):
+        for k in (1, 2, 3, 4) + ((7, 10) if content == 'blanky' else ()):
             if ctx.mine(i):
                 yield {'kind': 'truncations', 'blocks': k, 'content': content}
             i += 1
@@ -123,13 +134,13 @@ def cases(ctx):
                     yield {'kind': 'trailers', 'blocks': k, 'which': which, 'content': content}
                 i += 1
     if ctx.shard == 0:
-        ctx.exhaustive_subspace('unblock_1014: every truncation length of 1..4 blocks', 2 * sum(k * 1014 + 1 for k in (1, 2, 3, 4)))
-        ctx.exhaustive_subspace('unblock_1014: every trailer byte x 255 wrong values', 2 * 20 * 255)
+        ctx.exhaustive_subspace('unblock_1014: every truncation length of 1..4 blocks', 3 * sum(k * 1014 + 1 for k in (1, 2, 3, 4)) + 7 * 1014 + 10 * 1014 + 2)
+        ctx.exhaustive_subspace('unblock_1014: every trailer byte x 255 wrong values', (3 * 20 + 34) * 255)
     # inverse of the blocking function
     rng = ctx.rng('inv')
     for j in range((200 if ctx.tier == 'quick' else 30000) // ctx.nshards + 1):
         yield {'kind': 'inverse', 'n': rng.choice([0, 1, 1011, 1012, 1013, 2023, 2024, 2025, rng.randint(0, 6000)]),
-               'content': 'filly' if j % 2 else 'coded'}
+               'content': ('coded', 'filly', 'blanky')[j % 3]}
     for n in (2024, 2025, 3036, 4048, 8 * 1012, 8 * 1012 - 1, 11 * 1012 + 5, 80 * 1012):
         if ctx.mine(i):
             yield {'kind': 'inverse', 'n': n, 'content': 'filly'}
